@@ -229,6 +229,8 @@ def tf(ctx):
         y_in = sp.Integer(0)
         calls_before = []
         for which, (hdr, body, lat, _) in enumerate((l1, l2)):
+            if not (hdr.term.op == 'br' and len(hdr.succs) == 2 and any(b_ not in body for b_ in hdr.succs) and hdr not in hdr.succs):
+                raise Unsupported('loop %d is not tested at its head (do-while form): the sum template does not apply' % (which + 1))
             dom = FDom(names)
             dom.syms['x'] = x
             roles = {}
